@@ -60,6 +60,7 @@ class TLCResult:
         self.wall = 0.0
         self.stdout = ""
         self.timed_out = False
+        self.flooded = False
         self.coverage = {}
 
     def ok(self):
@@ -87,6 +88,9 @@ def parse_records(stdout: str):
     return recs
 
 
+MAX_OUTPUT = 400 << 20
+
+
 def run_tlc(module: str, cfg: str, workdir: str, *, workers=1, timeout=600,
             simulate: str | None = None, depth: int | None = None, seed: int | None = None,
             env_extra: dict | None = None, java_opts: list | None = None,
@@ -94,7 +98,7 @@ def run_tlc(module: str, cfg: str, workdir: str, *, workers=1, timeout=600,
     """Run TLC on workdir/module.tla with workdir/cfg.  SPECS is on the path
     through -DTLA-Library."""
     meta = tempfile.mkdtemp(prefix="tlcmeta_", dir=workdir)
-    jopts = ["-XX:+UseParallelGC", "-XX:ParallelGCThreads=2", "-Xmx3g", "-Xss16m", "-DTLA-Library=" + SPECS]
+    jopts = ["-XX:+UseParallelGC", "-XX:ParallelGCThreads=2", "-Xmx3g", "-Xss1g", "-DTLA-Library=" + SPECS]
     if dfs:
         jopts.append("-Dtlc2.tool.queue.IStateQueue=StateDeque")
     if java_opts:
@@ -118,14 +122,36 @@ def run_tlc(module: str, cfg: str, workdir: str, *, workers=1, timeout=600,
         env.update(env_extra)
     r = TLCResult()
     t0 = time.time()
+    # TLC's output goes to a file, not through a pipe into memory: after an error in a long behaviour TLC prints
+    # every state of it (gigabytes for a program with thousands of iterations), and a reader that swallows that is
+    # killed by the kernel -- with a worker pool waiting for it for ever
+    outpath = os.path.join(meta, "tlc.out")
     try:
-        p = subprocess.run(cmd, cwd=workdir, env=env, capture_output=True, text=True, timeout=timeout)
-        r.rc = p.returncode
-        r.stdout = p.stdout + p.stderr
-    except subprocess.TimeoutExpired as e:
-        r.timed_out = True
-        r.stdout = (e.stdout or b"").decode("utf-8", "replace") if isinstance(e.stdout, bytes) else (e.stdout or "")
-        r.rc = -1
+        with open(outpath, "wb") as fout:
+            proc = subprocess.Popen(cmd, cwd=workdir, env=env, stdout=fout, stderr=subprocess.STDOUT)
+            deadline = t0 + timeout
+            while True:
+                try:
+                    r.rc = proc.wait(timeout=2)
+                    break
+                except subprocess.TimeoutExpired:
+                    too_big = os.path.getsize(outpath) > MAX_OUTPUT
+                    if time.time() > deadline or too_big:
+                        proc.kill()
+                        proc.wait()
+                        r.rc = -1
+                        r.timed_out = not too_big
+                        r.flooded = too_big
+                        break
+        size = os.path.getsize(outpath)
+        with open(outpath, "rb") as fin:
+            if size <= MAX_OUTPUT:
+                data = fin.read()
+            else:
+                head = fin.read(4 << 20)
+                fin.seek(size - (1 << 20))
+                data = head + b"\n...\n" + fin.read()
+        r.stdout = data.decode("utf-8", "replace")
     finally:
         shutil.rmtree(meta, ignore_errors=True)
     r.wall = time.time() - t0
@@ -141,6 +167,11 @@ def run_tlc(module: str, cfg: str, workdir: str, *, workers=1, timeout=600,
     m = _PROP.search(out)
     if m and not r.violation:
         r.violation = m.group(1) or "temporal"
+    if getattr(r, "flooded", False):
+        errs = [ln for ln in out.splitlines() if ln.startswith("Error:")]
+        if r.violation is None:
+            r.error = "TLC printed more than %d MB and was stopped: %s" % (MAX_OUTPUT >> 20, " ".join(errs[:3]))
+        return r
     if r.rc not in (0, None) and r.violation is None and not r.timed_out:
         errs = [ln for ln in out.splitlines() if ln.startswith("Error:") or "Exception" in ln]
         r.error = "\n".join(errs[:12]) or ("TLC exit %s" % r.rc)
